@@ -281,6 +281,10 @@ func (c *Ctx) resolveRenames(vdir string) {
 		}
 	}
 	// ---- fields (function features mention field names)
+	knownTypes := map[string]bool{}
+	for _, tp := range af.Types {
+		knownTypes[tp.Pkg+"."+tp.Name] = true
+	}
 	type skey struct{ pkg, st string }
 	known := map[skey]map[string]bool{}
 	for _, fp := range af.Fields {
@@ -312,9 +316,76 @@ func (c *Ctx) resolveRenames(vdir string) {
 			f := st.Field(i)
 			if f.Name() == fp.Name {
 				present = true
+				// same name, but the value now sits one level down: the field became a new struct of this package with
+				// exactly one field of the old type
+				if normTypeNames(f.Type().String()) != fp.Type {
+					if _, isPtr := f.Type().Underlying().(*types.Pointer); !isPtr {
+						inner := structOf(f.Type())
+						nt := namedOf(f.Type())
+						if inner != nil && nt != nil && nt.Pkg() != nil && nt.Pkg().Path() == fp.Pkg && !knownTypes[fp.Pkg+"."+nt.Name()] {
+							var same []*types.Var
+							for j := 0; j < inner.NumFields(); j++ {
+								if normTypeNames(inner.Field(j).Type().String()) == fp.Type {
+									same = append(same, inner.Field(j))
+								}
+							}
+							if len(same) == 1 {
+								fieldAlias[same[0]] = fp.Name
+								fieldByOld[fp.Pkg+"."+fp.Struct+"."+fp.Name] = same[0]
+								c.Renames = append(c.Renames, fmt.Sprintf("field %s.%s.%s is now %s.%s (wrapped in a struct)", shortPkg(fp.Pkg), fp.Struct, fp.Name, fp.Name, same[0].Name()))
+							}
+						}
+					}
+				}
 			}
 			if !known[skey{fp.Pkg, fp.Struct}][f.Name()] && normTypeNames(f.Type().String()) == fp.Type {
 				cands = append(cands, f)
+			}
+		}
+		if !present && len(cands) == 0 {
+			// moved: the field now lives in a new struct of the same package that this struct holds (by value or pointer)
+			var moved []*types.Var
+			var movedHolder []string
+			for i := 0; i < st.NumFields(); i++ {
+				f := st.Field(i)
+				inner := structOf(f.Type())
+				nt := namedOf(f.Type())
+				if inner == nil || nt == nil || nt.Pkg() == nil || nt.Pkg().Path() != fp.Pkg || knownTypes[fp.Pkg+"."+nt.Name()] {
+					continue
+				}
+				var sameName, sameType []*types.Var
+				for j := 0; j < inner.NumFields(); j++ {
+					g := inner.Field(j)
+					if normTypeNames(g.Type().String()) != fp.Type {
+						continue
+					}
+					sameType = append(sameType, g)
+					if g.Name() == fp.Name {
+						sameName = append(sameName, g)
+					}
+				}
+				if len(sameName) == 1 {
+					moved = append(moved, sameName[0])
+					movedHolder = append(movedHolder, f.Name())
+				} else if len(sameType) == 1 {
+					moved = append(moved, sameType[0])
+					movedHolder = append(movedHolder, f.Name())
+				}
+			}
+			if len(moved) > 1 {
+				// several holders have such a field: the one whose name is a prefix of the old field's name
+				var byName []*types.Var
+				for k, m := range moved {
+					if strings.HasPrefix(strings.ToLower(fp.Name), strings.ToLower(movedHolder[k])) {
+						byName = append(byName, m)
+					}
+				}
+				moved = byName
+			}
+			if len(moved) == 1 {
+				fieldAlias[moved[0]] = fp.Name
+				fieldByOld[fp.Pkg+"."+fp.Struct+"."+fp.Name] = moved[0]
+				c.Renames = append(c.Renames, fmt.Sprintf("field %s.%s.%s moved into a nested struct (now %s)", shortPkg(fp.Pkg), fp.Struct, fp.Name, moved[0].Name()))
 			}
 		}
 		if present || len(cands) == 0 {
@@ -435,6 +506,51 @@ func (c *Ctx) resolveRenames(vdir string) {
 			fnFullAlias[cands[0]] = fp.Name
 			changed = true
 			c.Renames = append(c.Renames, fmt.Sprintf("function %s is now %s (same name, other receiver)", fp.Name, cands[0].String()))
+		}
+	}
+	// third pass: renamed AND moved (a function that became a method of a new struct under another name): the unclaimed
+	// function of the package that is clearly the most similar one
+	for _, fp := range af.Funcs {
+		if c.fnByName[fp.Name] != nil {
+			continue
+		}
+		claimed := false
+		for _, old := range fnFullAlias {
+			if old == fp.Name {
+				claimed = true
+			}
+		}
+		for f, old := range fnAlias {
+			if strings.HasSuffix(fp.Name, "."+old) && f.Pkg != nil && f.Pkg.Pkg.Path() == fp.Pkg {
+				claimed = true
+			}
+		}
+		if claimed || len(fp.Feat) < 4 {
+			continue
+		}
+		var best *ssa.Function
+		bestS, second := -1.0, -1.0
+		for _, f := range c.RepoFns {
+			if f.Parent() != nil || f.Pkg == nil || f.Pkg.Pkg.Path() != fp.Pkg || knownFn[c.fnName(f)] {
+				continue
+			}
+			if _, taken := fnAlias[f]; taken {
+				continue
+			}
+			if _, taken := fnFullAlias[f]; taken {
+				continue
+			}
+			sc := jaccard(c.fnFeatures(f), fp.Feat)
+			if sc > bestS {
+				best, second, bestS = f, bestS, sc
+			} else if sc > second {
+				second = sc
+			}
+		}
+		if best != nil && bestS >= 0.5 && bestS-second >= 0.2 {
+			fnFullAlias[best] = fp.Name
+			changed = true
+			c.Renames = append(c.Renames, fmt.Sprintf("function %s is now %s (similarity %.2f)", fp.Name, best.String(), bestS))
 		}
 	}
 	if changed {
